@@ -11,6 +11,7 @@ import (
 type G struct {
 	Name   string      // unique instance name, used in op lines
 	Model  string      // identifier of the Lean model carrier ("" = none, compared Go-to-Go only)
+	Grp    string      // token of the `grp` model-driver handler for this group ("" = no byte-level reference model)
 	Math   string      // identifier of the mathematical object (instances sharing it must agree bit-for-bit)
 	Group  kyber.Group // the instance
 	Suite  any         // the suite it came from (hash/xof/random/encoding), may be nil
@@ -42,7 +43,7 @@ func mk(name, model, family, kind string, g kyber.Group, suite any, embed, hash 
 		}
 		math = pre + kind
 	}
-	return &G{Name: name, Model: model, Math: math, Group: g, Suite: suite, Q: order(g), Family: family, Kind: kind, CanEmbed: embed, CanHash: hash}
+	return &G{Name: name, Model: model, Grp: model, Math: math, Group: g, Suite: suite, Q: order(g), Family: family, Kind: kind, CanEmbed: embed, CanHash: hash}
 }
 
 // ByName finds a group instance.
